@@ -268,6 +268,11 @@ func ruleLoopSel(c *Ctx) {
 					if d > 4 {
 						return false
 					}
+					if base, ok := loadsField(v, p.Field("lua", "LState", "ctxParent")); ok {
+						if _, isRecv := base.(*ssa.Parameter); isRecv {
+							return true
+						}
+					}
 					if base, ok := loadsField(v, ctxF); ok {
 						if _, isRecv := base.(*ssa.Parameter); isRecv {
 							return true
@@ -447,21 +452,24 @@ func walkCtxNonNil(g *PCFG, ctxF *types.Var, fn *ssa.Function, barrier func(ssa.
 	return rec(fn.Blocks[0])
 }
 
-// ruleThreadCtx: kill() cancels a finished thread's own context (to release it). NewThread must therefore
-// not hang a new thread's context under the creating coroutine's: the parent handed to context.WithCancel
-// comes from G.MainThread whenever that has a context (F48).
+// ruleThreadCtx: kill() cancels a finished thread's own derived context (to release it). NewThread must
+// therefore not hang a new thread's context under the creating coroutine's derived context: it derives
+// from what the creator's context was derived from (ctxParent) — for a thread whose context was attached
+// with SetContext that is the attached context itself (SetContext clears ctxParent) — and records it
+// for the next generation (F48, F72).
 func ruleThreadCtx(c *Ctx) {
 	const R = "R11-threadctx"
-	c.floor(R, 1)
+	c.floor(R, 3)
 	p := c.P
 	fn := c.need(R, "lua", "(*LState).NewThread")
 	if fn == nil {
 		return
 	}
-	mainF := p.Field("lua", "Global", "MainThread")
 	ctxF := p.Field("lua", "LState", "ctx")
+	parF := p.Field("lua", "LState", "ctxParent")
 	n, okc := 0, true
 	var site ssa.Instruction = fn.Blocks[0].Instrs[0]
+	var parentVal ssa.Value
 	allInstrs(fn, func(in ssa.Instruction) {
 		pk, name, ok := stdCall(in)
 		if !ok || pk != "context" || name != "WithCancel" {
@@ -470,15 +478,21 @@ func ruleThreadCtx(c *Ctx) {
 		n++
 		site = in
 		parent := in.(*ssa.Call).Call.Args[0]
-		fromMain := false
+		parentVal = parent
+		fromPar, fromCtx := false, false
 		var scan func(v ssa.Value, d int)
 		scan = func(v ssa.Value, d int) {
 			if d > 4 {
 				return
 			}
+			if base, ok := loadsField(v, parF); ok {
+				if _, isRecv := base.(*ssa.Parameter); isRecv {
+					fromPar = true
+				}
+			}
 			if base, ok := loadsField(v, ctxF); ok {
-				if _, ok := loadsField(base, mainF); ok {
-					fromMain = true
+				if _, isRecv := base.(*ssa.Parameter); isRecv {
+					fromCtx = true
 				}
 			}
 			if ph, ok := v.(*ssa.Phi); ok {
@@ -488,9 +502,27 @@ func ruleThreadCtx(c *Ctx) {
 			}
 		}
 		scan(parent, 0)
-		if !fromMain {
+		if !fromPar || !fromCtx {
 			okc = false
 		}
 	})
-	c.check(n > 0 && okc, R, "NewThread:context-from-main-thread", p.ipos(site), "the parent of the new thread's context is the state's (main thread's) context", "NewThread derives the new thread's context from the creating thread's own context: a coroutine created inside another coroutine is cancelled ('context canceled') as soon as its creator finishes, although the context attached to the state is still live — attaching a context changes behaviour")
+	c.check(n > 0 && okc, R, "NewThread:context-from-the-creators-base", p.ipos(site), "the parent of the new thread's context is the creator's ctxParent when it has one, its attached context otherwise", "NewThread derives the new thread's context from the creating thread's own derived context (or from some other thread's): a coroutine created inside another coroutine is cancelled ('context canceled') as soon as its creator finishes although the attached context is live, or a context attached to a thread does not govern the coroutines created from it")
+	recorded := false
+	allInstrs(fn, func(in ssa.Instruction) {
+		if st, ok := isFieldStore(in, parF); ok && parentVal != nil && st.Val == parentVal {
+			recorded = true
+		}
+	})
+	c.check(recorded, R, "NewThread:records-the-base", p.ipos(site), "the new thread remembers what its context was derived from", "NewThread does not record the context it derived the new thread's context from: the next generation of coroutines hangs under a context that is cancelled when this thread finishes")
+	if sc := c.need(R, "lua", "(*LState).SetContext"); sc != nil {
+		cleared := false
+		allInstrs(sc, func(in ssa.Instruction) {
+			if st, ok := isFieldStore(in, parF); ok {
+				if k, ok := st.Val.(*ssa.Const); ok && k.IsNil() {
+					cleared = true
+				}
+			}
+		})
+		c.check(cleared, R, "SetContext:attached-context-is-its-own-base", p.pos(sc.Pos()), "SetContext clears ctxParent", "SetContext leaves ctxParent set: coroutines created afterwards derive from the old base, the newly attached context does not govern them")
+	}
 }
